@@ -114,6 +114,7 @@ int main(int argc, char** argv) {
             char key[32]; snprintf(key, 32, "prof%d", k); if (in.has(key)) setprof(key);
             if (op == "w") { float* r = e_wake(w.f); dumpf(fo, "wake", r, (size_t)nb * n); }
             else if (op == "c") { const float* r = e_csr(w.f, (float)in.d("cutoff", 0, 0)); dumpf(fo, "csr", r, (size_t)nb * N); dumpf(fo, "csrpower", w.f->getCSRPower(), nb); }
+            else if (op == "C") { e_csr(w.f, (float)in.d("cutoff2", 0, 0)); }       // an earlier CSR computation with another cutoff setting (history only)
             else if (op == "p") { e_pad(w.f); dumpf(fo, "padded", w.f->getPaddedBunchProfiles(), N); }
             k++;
         }
